@@ -11,6 +11,7 @@
   `R` (the driver component `url-model` compares the two on every case).  Core Lean only.
 -/
 import NngModel.Model.Url
+import NngModel.Generated.C19
 namespace Nng.UrlBuf
 open Nng Nng.Url
 
